@@ -424,10 +424,12 @@ func (r *runner) budgetSecs() float64 {
 	if v, ok := r.spec.BudgetS[r.tier]; ok {
 		return float64(v)
 	}
+	// wall-clock guards against runaway exploration, generous enough for a loaded machine
+	// (the registered bounds finish in 10 s .. 5 min quick, up to ~40 min thorough, on 16 idle cores)
 	if r.tier == "thorough" {
-		return 2400
+		return 5400
 	}
-	return 300
+	return 1200
 }
 
 func spec2pattern(p string) string {
